@@ -154,9 +154,9 @@ func nf(s string) string {
 //@   loop 0 decreases len(iter)
 //@   loop 1 vars i int, t *strings.Builder
 //@   loop 1 invariant range:    0 <= i && i <= len(s)
-//@   loop 1 invariant rest:     wellEscaped(s[i:])
+//@   loop 1 invariant boundary: wellEscaped(s) == wellEscaped(s[i:])
 //@   loop 1 invariant acc:      t.String() + nf(s[i:]) == nf(s)
-//@   loop 1 assert esc:   i < len(s) && s[i] == '%' ==> escAt(s[i:]) && nf(s[i:]) == nfTok(s[i+1], s[i+2]) + nf(s[i+3:])
+//@   loop 1 assert esc:   i < len(s) && s[i] == '%' && escAt(s[i:]) ==> nf(s[i:]) == nfTok(s[i+1], s[i+2]) + nf(s[i+3:])
 //@   loop 1 assert plain: i < len(s) && s[i] != '%' ==> nf(s[i:]) == s[i:i+1] + nf(s[i+1:])
 //@   loop 1 decreases len(s) - i
 
